@@ -5,7 +5,9 @@ Real side: real files of sizes straddling the 1 MiB read chunk x every algorithm
 successive `fo.read()` calls compared with the model's chunk trace (correspondence); relative paths with redundant
 components through `Checksums.add`; real TreeInfo loads of a minimal valid tree plus a `[checksums]` section mixing
 typed and bare entries of recognised / unrecognised lengths in every order; write+read of tables; `add_checksum`
-sequences with equal / different / empty values.
+sequences with equal / different / empty values.  Op `hash`: the modelled hash objects (md5/sha1/sha2 of Model/HashMD.lean run through the
+code's chunk loop, a loop of any chunk size, or arbitrary chunk sizes) vs hashlib one-shot, hashlib fed the same chunks and
+`compute_checksum` on a real file, on every padding boundary, chunk size -1/+0/+1/x2, random / sparse / text-like contents.
 """
 import builtins, hashlib, itertools, json, os, posixpath, random, re, shutil, tempfile
 import checklib
@@ -904,7 +906,7 @@ C16.real = C16.real_and_stash
 PROP = C16()
 
 MANIFEST = dict(
-    technique="Lean 4 proofs by induction (read loop over an abstract streaming hash, POSIX normpath, dict-assignment loop of the section reader, add_checksum histories) + decide on constants regenerated from the AST; differential run on real files, real TreeInfo loads and real Image objects",
-    text="C16_chunked/C16_compute: for an abstract streaming hash with the concatenation law, ANY content and ANY chunk size > 0 the read-until-empty loop returns the one-shot digest (chunk size and loop shape come from the source). C16_add/_absolute/_refusal/_invariant: the key is normpath(path), never absolute; absolute paths and failures leave the table alone. C16_pointwise: if a [checksums] section loads, every path maps to `typed` of ITS OWN raw value (type:value, or a bare digest typed by length 32/40/64, anything else rejected). C16_add_computes: add without a value records the one-shot digest of the full content of root/normpath(path). C16_roundtrip: write then read is the identity on tables free of ':'; C16_roundtrip_refuses: a table with ':' in a type or value is refused on read, never read as something else. C16_pointwise_legacy: the same pointwise reading for header-less files with relative keys. C16_image_monotone: over any add_checksum history a recorded value never changes.",
-    note="hashlib itself and the INI reader are not modelled (streaming law as explicit hypothesis; the section is an association list fed from the real parser). Legacy header-less path rewriting (_fix_path) is modelled and compared but not part of the pointwise theorem.",
+    technique="Lean 4 proofs by induction (block-buffered hash objects: streaming law for every block size and compression function; executable md5/sha1/sha2; read loop over them and over an abstract streaming hash, POSIX normpath, dict-assignment loop of the section reader, add_checksum histories) + decide on constants regenerated from the AST; differential run on real files, real TreeInfo loads and real Image objects",
+    text="C16_chunked/C16_compute: for an abstract streaming hash with the concatenation law, ANY content and ANY chunk size > 0 the read-until-empty loop returns the one-shot digest (chunk size and loop shape come from the source). C16_streaming_md/C16_chunked_md/C16_any_chunking_md/C16_compute_md: hashlib objects MODELLED as block-buffered absorbers (chaining value, pending bytes, length; update compresses complete blocks, digest pads and finalises) - update(update h a) b = update h (a++b) and update h [] = h PROVED for every block size > 0 and every compression function, hence the code's loop (any chunk size, any chunking) returns the one-shot digest with NO hypothesis about the hash; C16_chunked_md5/_sha1/_sha224/_sha256/_sha384/_sha512, C16_compute_by_name: the same for the executable md5/sha1/sha2 instances (test vectors checked by the kernel: C16_test_vectors; compared with hashlib on every run); C16_add_computes_md: add without a value records that digest. C16_add/_absolute/_refusal/_invariant: the key is normpath(path), never absolute; absolute paths and failures leave the table alone. C16_pointwise: if a [checksums] section loads, every path maps to `typed` of ITS OWN raw value (type:value, or a bare digest typed by length 32/40/64, anything else rejected). C16_add_computes: add without a value records the one-shot digest of the full content of root/normpath(path). C16_roundtrip: write then read is the identity on tables free of ':'; C16_roundtrip_refuses: a table with ':' in a type or value is refused on read, never read as something else. C16_pointwise_legacy: the same pointwise reading for header-less files with relative keys. C16_image_monotone: over any add_checksum history a recorded value never changes.",
+    note="hashlib: md5/sha1/sha224/sha256/sha384/sha512 are modelled and compared with hashlib.new(name) (one-shot, fed in chunks, and through compute_checksum on real files); for other algorithm names the generic block-buffered theorem applies with the compression function abstract (that OpenSSL's sha3/blake2/... have this shape is exercised on real files, not proved). The INI reader is not modelled here (the section is an association list fed from the real parser). Legacy header-less path rewriting (_fix_path) is modelled and compared but not part of the pointwise theorem.",
     ref="7/C16")
